@@ -393,7 +393,14 @@ namespace awkward {
       , contents_(contents)
       , recordlookup_(recordlookup)
       , length_(length)
-      , caches_(fillcache(contents)) { }
+      , caches_(fillcache(contents)) {
+    if (recordlookup_.get() != nullptr  &&
+        recordlookup_.get()->size() != contents_.size()) {
+      throw std::invalid_argument(
+        std::string("recordlookup and contents must have the same number of fields")
+        + FILENAME(__LINE__));
+    }
+  }
 
   int64_t
   minlength(const ContentPtrVec& contents) {
